@@ -154,4 +154,30 @@ def statsStep (st : Stats) (was now : Bool) (lastVersion : Nat) : Res Stats :=
       | .ok d => .ok { st1 with dc := some (encU32 (u32 (d + 1))) }
     else .ok st1
 
+/-- `metadata.Version` of the last applied version (`applyFrom`: `if metadata.Version == 0 { incrementDocumentCount }`) -/
+def lastVersionOf (st : DidState) : Nat :=
+  match st.chain.getLast? with | some p => p.2.version | none => 0
+
+/-- `store.Add` with the content-addressed shelves AND the literal statistics shelf: `applyFrom` (and with it the
+    statistics update) only runs when both transactions run and `currentEventList.contains(event)` is false -/
+def dAddS (cfg : Cfg) (b : Blob) (s : Store) (st : Stats) (e : Event) (mode : Nat) : Res (Blob × Store × Stats) :=
+  match dAdd cfg b s e mode with
+  | .err x => .err x
+  | .panic x => .panic x
+  | .ok (b', s') =>
+    if mode = 1 ∨ mode = 2 ∨ contains (s.get e.doc.id).events e = true then .ok (b', s', st)
+    else
+      match statsStep st (s.get e.doc.id).conflicted (s'.get e.doc.id).conflicted (lastVersionOf (s'.get e.doc.id)) with
+      | .ok st' => .ok (b', s', st')
+      | .err x => .err x
+      | .panic x => .panic x
+
+def dAddSAll (cfg : Cfg) : Blob × Store × Stats → List (Event × Nat) → Res (Blob × Store × Stats)
+  | t, [] => .ok t
+  | t, (e, mode) :: rest =>
+    match dAddS cfg t.1 t.2.1 t.2.2 e mode with
+    | .ok t' => dAddSAll cfg t' rest
+    | .err x => .err x
+    | .panic x => .panic x
+
 end Nuts.C10
